@@ -181,7 +181,78 @@ func genOne(c *hx.Ctx, class string) string {
 	return fmt.Sprintf("c09 K %d close %s cstop %s%s cons %d %s | %s", K, closeS, cstopS, optS, cstart, strings.Join(cdel, " "), strings.Join(sb, " ; "))
 }
 
+// genTie: 5-9 producers all send at ONE virtual instant (T0 = 11 mod 16) against a full / nearly full queue, with a close at
+// that very instant (or later, or none). The order in which these goroutines run is up to the Go runtime; the monitor has to
+// accept every order (it searches over them).
+func genTie(c *hx.Ctx) string {
+	r := c.Rng
+	res := []int{1, 2, 3, 4, 5, 6, 7, 9, 10} // private residues of the producers (8 = consumer, 0 = controller, 12 = closer)
+	nP := r.Range(5, 9)
+	K := r.Range(1, 4)
+	s0 := r.Range(3, 8)
+	T0 := int64(16*s0 + 11)
+	type op struct {
+		p    int
+		kind string
+		at   int64
+	}
+	var ops []op
+	kindOf := func() string {
+		switch x := r.Intn(12); {
+		case x < 9:
+			return fmt.Sprintf("cb%d", genCode(r))
+		case x < 10:
+			return "tk"
+		case x < 11:
+			return "nil"
+		default:
+			return fmt.Sprintf("cd%d", r.Intn(4))
+		}
+	}
+	// pre-fill: K, K-1 or K-2 tasks are in the queue at T0 (the consumer starts after T0 or is slow)
+	pre := K - r.Intn(3)
+	if pre < 0 {
+		pre = 0
+	}
+	for i := 0; i < pre; i++ {
+		p := r.Intn(nP)
+		ops = append(ops, op{p, fmt.Sprintf("cb%d", r.Intn(4)), int64(16*r.Range(1, s0-1) + res[p])})
+	}
+	for p := 0; p < nP; p++ {
+		for k := r.Range(1, 2); k > 0; k-- {
+			ops = append(ops, op{p, kindOf(), T0})
+		}
+		for k := r.Intn(3); k > 0; k-- {
+			ops = append(ops, op{p, kindOf(), int64(16*r.Range(s0+1, s0+6) + res[p])})
+		}
+	}
+	sort.SliceStable(ops, func(i, j int) bool { return ops[i].at < ops[j].at })
+	closeS := "-"
+	switch r.Intn(4) {
+	case 0, 1:
+		closeS = fmt.Sprint(T0)
+	case 2:
+		closeS = fmt.Sprint(16*r.Range(s0+1, s0+8) + 12)
+	}
+	cstart := int64(16 * r.Range(s0+1, s0+4))
+	if r.Intn(3) == 0 {
+		cstart = int64(16 * r.Range(0, s0))
+	}
+	var cdel, sb []string
+	for i := r.Range(1, 4); i > 0; i-- {
+		cdel = append(cdel, fmt.Sprint(16*r.Range(1, 5)))
+	}
+	for _, o := range ops {
+		sb = append(sb, fmt.Sprintf("%d %s %d", o.p, o.kind, o.at))
+	}
+	return fmt.Sprintf("c09 K %d close %s cstop - cons %d %s | %s", K, closeS, cstart, strings.Join(cdel, " "), strings.Join(sb, " ; "))
+}
+
 func gen(c *hx.Ctx) {
+	for i := c.Budget(1500, 20000); i > 0; i-- {
+		c.Emit("%s", genTie(c))
+		c.Count("class_same-instant")
+	}
 	classes := []string{"slow", "slow", "fast", "close-mid", "close-mid", "close-tie", "close-tie", "cstop", "close-early"}
 	// stress lines: real goroutines on 4 Ps racing for the last free slots, then close (judged by the oracle only)
 	rounds := c.Budget(400, 4000)
